@@ -59,3 +59,6 @@ package app
 //@   ensures get: a.model != nil && result == a.model.CoinsCount
 //@   ensures samerecord: old(a.model) != nil ==> a.model == old(a.model)
 //@   modifies a.model
+
+//@ # ---------------------------------------------------------------- lock discipline (C25)
+//@ guarded App.model, App.isDirty by mx
